@@ -546,6 +546,8 @@ pub fn entry_pool(level: u8) -> Vec<Entry> {
         // must not depend on the neighbouring key
         e("g", st("1")),
         e("str(g)", st("1*")),
+        e("g", st("2")),
+        e("f", st("")),
     ];
     if level >= 1 {
         v.extend(vec![
